@@ -230,6 +230,7 @@ func c10Spaces(c *fw.Ctx) {
 	c10AlterSpace(c)
 	c10PrecheckSpace(c)
 	c10KeyStructSpace(c)
+	c10KeytagEdgeSpace(c)
 	c10FreshSpace(c)
 	c10ShortSpace(c)
 	c10AllKeysSpace(c)
